@@ -121,7 +121,7 @@ def _wfs(wf):
 
 
 def features(case):
-    """Syntactic classes of a program that known deviations of StreamFlow are tied to."""
+    """Syntactic classes of a program (or of a cone of it) that known deviations of StreamFlow are tied to."""
     f = set()
     wf = case["wf"]
     for where, l in _links(wf):
@@ -167,55 +167,144 @@ def features(case):
     return f
 
 
+def cone(wf, out_ids):
+    """The part of a workflow that the outputs [out_ids] depend on: those outputs, the steps they reach backwards,
+    and, inside a subworkflow step, only the cone of the step outputs that are actually used."""
+    outs = [o for o in wf["outputs"] if o["id"] in out_ids]
+    need = {}
+
+    def add(refs):
+        for r in refs:
+            if "/" in r:
+                sid, oid = r.split("/", 1)
+                need.setdefault(sid, set()).add(oid)
+    for o in outs:
+        add(o["src"])
+    steps = []
+    for s in reversed(wf["steps"]):          # steps are listed in dependency order
+        if s["id"] in need:
+            s2 = dict(s)
+            if "wf" in s["run"]:
+                s2["run"] = {"wf": cone(s["run"]["wf"], need[s["id"]])}
+            steps.append(s2)
+            for l in s["in"]:
+                add(l["src"])
+    steps.reverse()
+    return {"inputs": wf["inputs"], "steps": steps, "outputs": outs}
+
+
+def cone_features(c, out_ids):
+    return features({"wf": cone(c["wf"], set(out_ids))}) - {"dangling-step"}
+
+
+def _links_named(c, name, pred):
+    """Some link (step input or workflow output, at any nesting level) called [name] satisfies pred."""
+    return any(l["id"] == name and pred(l) for _, l in _links(c["wf"]))
+
+
+def _steps(wf):
+    for s in wf["steps"]:
+        yield s
+        if "wf" in s["run"]:
+            yield from _steps(s["run"]["wf"])
+
+
+def first_diff(o):
+    ref, sf = o["ref"]["ok"], o["sf"]["ok"]
+    for k in sorted(set(ref) | set(sf)):
+        if _canon(ref.get(k, "<absent>")) != _canon(sf.get(k, "<absent>")):
+            return k
+    return None
+
+
+_DUP = lambda l: len(set(l["src"])) < len(l["src"])                                   # noqa: E731
+_SINGLE_LM = lambda l: bool(l.get("list") and len(l["src"]) == 1 and l.get("lm"))    # noqa: E731
+
+
 def diagnose(c, o, clause):
-    """Cause class of a disagreement: syntactic class of the program + error class / shape of the difference.
-    Anything that does not fit a class keeps a generic, error-specific signature and is therefore reported."""
-    fs = features(c)
+    """Cause class of a disagreement.  A class is accepted only when the thing the runners NAME — the workflow output
+    that differs, the token / sink / step in the error message — is (or, for an output, depends on) the construct
+    that carries the syntactic feature of the class, and the error class is the specific one of the finding.
+    Anything else keeps a generic, error-specific signature `plain/...` and is therefore reported as a VIOLATION."""
+    import re
+    top_outputs = {x["id"] for x in c["wf"]["outputs"]}
     if clause == "sf-fails-ref-succeeds":
-        e = errclass(o["sf"].get("why", ""))
-        if e == "static-checker-incompatible" and "single-source-list-linkmerge" in fs:
-            return "static-checker-single-source-list"
-        if e == "no-suitable-token-processor" and "single-source-list-linkmerge" in fs:
-            return "single-array-source-linkmerge-unwrapped"
-        if e in ("token-not-optional", "invalid-value-none") and "all-non-null" in fs:
-            return "all-non-null-single-source-with-null"
-        for cls in ("scattered-subworkflow-independent-step", "scattered-subworkflow-passthrough"):
-            if cls in fs and e in ("tag-int-valueerror", "failed-workflow-execution", "other", "no-suitable-token-processor"):
-                return cls
-        if e == "no-suitable-token-processor" and "nested-crossproduct" in fs:
-            return "empty-nested-crossproduct"
-        if e in ("no-suitable-token-processor", "array-expected") and "merge-flattened" in fs:
-            return "merge-flattened-deep"
-        if "dup-source" in fs and e in ("invalid-value-none", "token-not-optional", "array-expected"):
-            return "dup-source-dropped"
-        if e in ("failed-workflow-execution", "other") and "dangling-step" in fs:
-            return "dangling-step-cancelled"
+        why = o["sf"].get("why", "")
+        e = errclass(why)
+        if e == "static-checker-incompatible":
+            sinks = set(re.findall(r"with sink '(\w+)'", why))
+            if any(_links_named(c, k, _SINGLE_LM) for k in sinks):
+                return "static-checker-single-source-list"
+        if e == "no-suitable-token-processor":
+            m = re.search(r"token processors in (\w+)", why)
+            if m and m.group(1) in top_outputs:
+                fc = cone_features(c, [m.group(1)])
+                for cls in ("scattered-subworkflow-independent-step", "scattered-subworkflow-passthrough"):
+                    if cls in fc:
+                        return cls
+                if "single-source-list-linkmerge" in fc:
+                    return "single-array-source-linkmerge-unwrapped"
+                if "nested-crossproduct" in fc:
+                    return "empty-nested-crossproduct"
+                if "merge-flattened" in fc:
+                    return "merge-flattened-deep"
+        if e in ("array-expected", "token-not-optional", "invalid-value-none"):
+            names = set(re.findall(r"for token (\w+)", why)) | set(re.findall(r"Token (\w+) is not optional", why))
+            if e == "array-expected" and any(_links_named(c, k, lambda l: l.get("lm") == "merge_flattened") for k in names):
+                return "merge-flattened-deep"
+            if e != "array-expected" and any(
+                    _links_named(c, k, lambda l: l.get("pv") == "all_non_null" and len(l["src"]) == 1 and not l.get("list"))
+                    for k in names):
+                return "all-non-null-single-source-with-null"
+            if any(_links_named(c, k, _DUP) for k in names):
+                return "dup-source-dropped"
+        if e == "tag-int-valueerror":
+            fs = features(c)
+            for cls in ("scattered-subworkflow-independent-step", "scattered-subworkflow-passthrough"):
+                if cls in fs:
+                    return cls
+        if e in ("failed-workflow-execution", "cancelled-job") and "dangling-step" in features(c):
+            # a job named in the message must belong to the part of the program no workflow output depends on
+            live = {s["id"] for s in cone(c["wf"], top_outputs)["steps"]}
+            jobs = {j.split("/")[1] for j in re.findall(r"for job (/[\w/]+)", why)}
+            if not (jobs & live):
+                return "dangling-step-cancelled"
         return "plain/" + e
     if clause == "output-differs":
         d = diffclass(c, o)
-        if "scattered-subworkflow-passthrough" in fs and d in ("elements-missing", "same-elements-different-nesting"):
+        k = first_diff(o)
+        fc = cone_features(c, [k]) if k in top_outputs else set()
+        if "scattered-subworkflow-passthrough" in fc and d in ("elements-missing", "same-elements-different-nesting"):
             return "scattered-subworkflow-passthrough"
-        if "scattered-subworkflow-independent-step" in fs and d in ("elements-missing", "same-elements-different-nesting"):
+        if "scattered-subworkflow-independent-step" in fc and d in ("elements-missing", "same-elements-different-nesting"):
             return "scattered-subworkflow-independent-step"
-        if "subworkflow-passthrough-single" in fs and "scattered-subworkflow-passthrough" not in fs \
+        if "subworkflow-passthrough-single" in fc and "scattered-subworkflow-passthrough" not in fc \
                 and d in ("value-differs", "elements-differ"):
             return "subworkflow-passthrough"
-        if "conditional-subworkflow-independent-step" in fs and d in ("value-differs", "elements-differ"):
+        if "conditional-subworkflow-independent-step" in fc and d in ("value-differs", "elements-differ"):
             return "conditional-subworkflow-independent-step"
-        if "dup-source" in fs and d in ("elements-missing", "value-differs", "elements-differ",
+        if "dup-source" in fc and d in ("elements-missing", "value-differs", "elements-differ",
                                           "same-elements-different-nesting"):
             return "dup-source-dropped"
-        if "nested-crossproduct" in fs and d == "same-elements-different-nesting":
+        if "nested-crossproduct" in fc and d == "same-elements-different-nesting":
             return "empty-nested-crossproduct"
-        if "flat-crossproduct-multi" in fs and "merge-flattened" in fs and d == "same-elements-different-order":
+        if "flat-crossproduct-multi" in fc and "merge-flattened" in fc and d == "same-elements-different-order":
             return "flat-crossproduct-merge-flattened-order"
         return "plain/" + d
     if clause == "sf-succeeds-ref-fails":
         w = o["ref"].get("why", "")
-        if "dotproduct-multi" in fs and "Length of input arrays must be equal" in w:
-            return "dotproduct-empty-vs-nonempty"
-        if "dup-source" in fs and ("Expected only one source" in w or "NoneType" in w):
-            return "dup-source-dropped"
+        if "Length of input arrays must be equal" in w:
+            names = set(re.findall(r"\[step (\w+)\]", w))
+            if any(s["id"] in names and len(s["scatter"]) > 1 and s.get("method") in (None, "dotproduct")
+                   for s in _steps(c["wf"])):
+                return "dotproduct-empty-vs-nonempty"
+        only = lambda l: _DUP(l) and l.get("pv") == "the_only_non_null"   # noqa: E731
+        if "Expected only one source" in w:
+            names = set(re.findall(r"source for '(\w+)'", w))
+            if any(_links_named(c, k, only) for k in names):
+                return "dup-source-dropped"
+        if "NoneType" in w and any(only(l) for _, l in _links(c["wf"])):
+            return "dup-source-dropped"       # cwltool's way of failing inside a subworkflow: no name in the message
         return "plain"
     return "plain"
 
@@ -682,6 +771,7 @@ ERRCLASSES = [
     ("All sources are null", "all-sources-null"),
     ("Expected only one source", "only-one-source"),
     ("WorkflowDefinitionException", "definition-exception"),
+    ("Could not retrieve connector for job", "cancelled-job"),
     ("FAILED Workflow execution", "failed-workflow-execution"),
 ]
 
@@ -722,13 +812,14 @@ def _why(err):
     lines = [re.sub(r"^\d{4}-\d\d-\d\d \d\d:\d\d:\d\d\.\d+\s+", "", ln) for ln in lines]
     keep = []
     for i, ln in enumerate(lines):
-        if ("ERROR" in ln or "Exception" in ln or "rror:" in ln or "is incompatible" in ln) and "Traceback" not in ln:
+        if ("ERROR" in ln or "Exception" in ln or "rror:" in ln or "is incompatible" in ln or "with sink" in ln) \
+                and "Traceback" not in ln:
             keep.append(ln.strip())
             if ln.rstrip().endswith(":") and i + 1 < len(lines):
                 keep.append(lines[i + 1].strip())
     keep = [k for k in keep if k]
     keep = [re.sub(r"_:[0-9a-f-]{36}", "_:id", re.sub(r"/var/tmp/sfv-c29-[A-Za-z0-9_]+", "<dir>", k)) for k in keep]
-    return " | ".join(keep[:4])[:500]
+    return " | ".join(keep[:6])[:700]
 
 
 PROP = C29()
